@@ -85,7 +85,13 @@ class JobControl:
         self._lock = threading.RLock()
 
     def clear_queue(self) -> None:
-        self._queue.clear()
+        # With the lock held: _run_next_job tests the length of the queue and
+        # then pops, and a clear between the two made the pop raise.
+        if self._acquire_lock():
+            try:
+                self._queue.clear()
+            finally:
+                self._release_lock()
 
     def add_job(self, job, name=None):
         return self._enqueue_job(job, self._queue.append, name)
